@@ -42,7 +42,7 @@ def run(ctx):
         pick[1] = pick[1] + [ASIS[1]]
     results, fails, legal = S.behaviour_check_multi(ctx, 'tmp', cases, variants, S.transform_c38, pick=pick)
     S.report_failures_multi(ctx, 'C38', cases, results, fails, S.transform_c38, shrink=not ctx.replay,
-                            budget=3 if ctx.quick else 24)
+                            budget=3 if ctx.quick else 24, shrink_all=not ctx.quick)
     ctx.cover['programs_with_legal_inputs'] = len(legal)
     ctx.cover['variants_exercised'] = sorted({v for r in results for v in r['new']})
     ctx.cover['variant_runs_ok'] = {v: sum(1 for r in results if r['new'].get(v, ('',))[0] == 'ok') for v in variants}
